@@ -266,6 +266,53 @@ def readCalls (file : Bytes) (s : Seq) : List Nat → List (Bytes × RdErr)
     | .nil => (r.data, r.err) :: readCalls file { s with cur := r.cur } ks
     | _ => [(r.data, r.err)]
 
+/-! ### Seq.Read over ANY io.ReaderAt
+
+`readAt`/`readLoopG`/`Seq.read` above fix the behaviour of `bytes.Reader` and `os.File`: a read reports `io.EOF`
+only when fewer bytes than asked for are available.  The `io.ReaderAt` contract leaves one freedom for a read of
+`n` bytes at `pos` that is complete and ends exactly at the end of the input: it "may return either err == EOF
+or err == nil".  `eager pos n = true` means the reader takes the first option there.  (A short read with a nil
+error is forbidden by the contract, and the bytes returned are determined by the input, so this function is all
+the freedom a reader over a fixed file has.)  `readLoopE`, `Seq.readE`, `readCallsE` are the same code over such a
+reader; with `eager = fun _ _ => false` they are `readLoopG`, `Seq.read`, `readCalls`
+(`Hts.Lemmas.Fai.readLoopE_false`, `readE_false`, `readCallsE_false`). -/
+
+def readLoopE (eager : Nat → Nat → Bool) (file : Bytes) (pos eol : Nat → Nat) (endPos stop : Nat) (cur k : Nat)
+    (acc : Bytes) : RdRes :=
+  if h : cur < stop then
+    if endPos ≤ pos cur then ⟨acc, .badLayout, cur⟩
+    else
+      let want := min (min (eol cur) (endPos - pos cur)) k
+      if h0 : want = 0 then ⟨acc, .badLayout, cur⟩
+      else
+        let got := readAt file (pos cur) want
+        if hg : got.length < want then ⟨acc ++ got, .eof, cur + got.length⟩   -- short read: io.EOF
+        else if eager (pos cur) want = true ∧ pos cur + want = file.length then
+          ⟨acc ++ got, .eof, cur + got.length⟩                                -- complete read, io.EOF with it
+        else if k - got.length = 0 then ⟨acc ++ got, .nil, cur + got.length⟩
+        else readLoopE eager file pos eol endPos stop (cur + got.length) (k - got.length) (acc ++ got)
+  else ⟨acc, .eof, cur⟩
+termination_by stop - cur
+decreasing_by
+  have h1 : want ≤ got.length := Nat.le_of_not_lt hg
+  have h2 : 0 < want := Nat.pos_of_ne_zero h0
+  have h3 : 0 < got.length := Nat.lt_of_lt_of_le h2 h1
+  exact Nat.sub_lt_sub_left h (Nat.lt_add_of_pos_right h3)
+
+def Seq.readE (eager : Nat → Nat → Bool) (file : Bytes) (s : Seq) (k : Nat) : RdRes :=
+  if k = 0 then ⟨[], .nil, s.cur⟩
+  else if s.stop ≤ s.cur then ⟨[], .eof, s.cur⟩
+  else if s.rcd.basesPerLine = 0 then ⟨[], .panicDiv, s.cur⟩
+  else readLoopE eager file s.rcd.position s.rcd.endOfLineOffset (s.rcd.position s.stop) s.stop s.cur k []
+
+def readCallsE (eager : Nat → Nat → Bool) (file : Bytes) (s : Seq) : List Nat → List (Bytes × RdErr)
+  | [] => []
+  | k :: ks =>
+    let r := s.readE eager file k
+    match r.err with
+    | .nil => (r.data, r.err) :: readCallsE eager file { s with cur := r.cur } ks
+    | _ => [(r.data, r.err)]
+
 /-! ### WriteTo -/
 
 def TAB : UInt8 := 9
